@@ -33,6 +33,12 @@ class BudgetExceeded(EngineSignal):
     pass
 
 
+class NonTermination(EngineSignal):
+    """a loop of the code under test makes no progress: the same local state after every one of many iterations, no
+    solver decision in between.  Reported as a violation candidate ('terminates') and confirmed by a native run under a
+    watchdog before anything is printed."""
+
+
 import os
 SLOWQ = float(os.environ.get("PYSYM_SLOWQ", "0") or 0)
 FORKSITES = {} if os.environ.get("PYSYM_FORKSITES") else None
@@ -151,6 +157,7 @@ class Engine:
         self.mode = "symbolic"
         self.known_preds = []    # (label, z3 bool) known-finding classes registered by harness
         self.memo = {}
+        self.informative = 0     # decisions that were not already implied by the path condition
         self.deadline = time.perf_counter() + float(os.environ.get("PYSYM_PATH_BUDGET", "300"))
 
     # -- low level ------------------------------------------------------------------------------
@@ -207,12 +214,14 @@ class Engine:
             return False
         if self.pos < len(self.prefix):
             d = self.prefix[self.pos]
+            self.informative += 1
         else:
             if len(self.trace) >= self.max_decisions:
                 raise BudgetExceeded("too many decisions on one path")
             t = self.feasible(cond)
             f = self.feasible(z3.Not(cond)) if t else True
             if t and f:
+                self.informative += 1
                 d = True
                 self.res.pending.append(self.trace + [False])
                 if FORKSITES is not None:
@@ -244,6 +253,7 @@ class Engine:
             if FORKSITES is not None and len(feas) > 1:
                 _site("fork%d" % len(feas), len(feas) - 1)
         self.pos += 1
+        self.informative += 1
         self.trace.append(d)
         self.add(conds[d])
         return d
@@ -283,6 +293,7 @@ class Engine:
                 self.solver.pop()
                 raise Unmodelled("concretize: more than %d values for %s" % (limit, term))
             self.solver.pop()
+        self.informative += 1 if others else 0
         for w in others:
             self.res.pending.append(self.trace + [w])
         if FORKSITES is not None and others:
